@@ -122,6 +122,20 @@ Qed.
 Lemma topbits_whole bits : topbits bits (8 * N.of_nat (length bits)) = be_val bits.
 Proof. unfold topbits. rewrite N.sub_diag. change (2 ^ 0) with 1. apply N.div_1_r. Qed.
 
+Lemma abvs_app_ok0 a b : Forall aop_ok a -> Forall aop_ok b -> Forall aop_ok (a ++ b).
+Proof. intros; apply Forall_app; split; assumption. Qed.
+
+Lemma topbits_firstn bits k : bytes_ok bits -> (k <= length bits)%nat ->
+  bytes_of (topbits bits (8 * N.of_nat k)) (8 * N.of_nat k) (8 * N.of_nat k) = firstn k bits.
+Proof.
+  intros Hb Hk. rewrite <- (firstn_skipn k bits) at 1. unfold topbits.
+  rewrite be_val_app, app_length, firstn_length, Nat.min_l by exact Hk.
+  pose proof (be_val_lt (skipn k bits) (bytes_ok_skipn _ _ Hb)) as Hlt.
+  replace (8 * N.of_nat (k + length (skipn k bits)) - 8 * N.of_nat k) with (8 * N.of_nat (length (skipn k bits))) by lia.
+  rewrite N.div_add_l by (apply N.pow_nonzero; discriminate). rewrite (N.div_small _ _ Hlt), N.add_0_r.
+  pose proof (bytes_of_whole (firstn k bits) (bytes_ok_firstn _ _ Hb)) as H. rewrite firstn_length, Nat.min_l in H by exact Hk. exact H.
+Qed.
+
 (* ---------- one block inside its own bit stream ---------- *)
 Section INNER.
 Variable hash : list N -> N.
@@ -133,60 +147,104 @@ Hypothesis Hh64 : ck = 2 -> forall l, hash l < 2 ^ 64.
 Definition hash_ops (b : list N) : list cop :=
   if ck =? 1 then [CBits (hash b) 32] else if ck =? 2 then [CBits (hash b) 64] else [].
 
-Lemma null_chunks_single f b : b <> [] -> N.of_nat (length b) <= 8388608 ->
-  null_chunks (S f) b = [CArr b (8 * N.of_nat (length b))].
+(* NullEntropyEncoder.Write / NullEntropyDecoder.Read: arrays of at most 2^23 bytes *)
+Lemma null_chunks_ok : forall fuel b, bytes_ok b -> N.of_nat (length b) <= N.of_nat fuel * 8388608 ->
+  Forall aop_ok (map conv (null_chunks fuel b)) /\ snd (abvs (map conv (null_chunks fuel b))) = 8 * N.of_nat (length b).
 Proof.
-  intros Hne Hl. cbn [null_chunks]. destruct b as [|x t] eqn:Eb; [congruence|]. rewrite <- Eb in *.
-  rewrite N.min_l by exact Hl. rewrite Nat2N.id, firstn_all, skipn_all. destruct f; reflexivity.
+  induction fuel as [|f IH]; intros b Hb Hs.
+  - destruct b; [split; [constructor|reflexivity]|cbn [length] in Hs; lia].
+  - cbn [null_chunks]. destruct b as [|x t] eqn:Eb; [split; [constructor|reflexivity]|]. rewrite <- Eb in *.
+    set (k := N.to_nat (N.min (N.of_nat (length b)) 8388608)).
+    assert (Hk : (1 <= k <= length b)%nat /\ N.of_nat k = N.min (N.of_nat (length b)) 8388608).
+    { unfold k. rewrite N2Nat.id. assert (0 < length b)%nat by (rewrite Eb; cbn [length]; lia). split; lia. }
+    destruct Hk as [Hk Hkn].
+    destruct (IH (skipn k b) (bytes_ok_skipn _ _ Hb)) as [I1 I2]; [rewrite skipn_length; lia|].
+    cbn [map conv abvs snd aop_size]. rewrite I2, skipn_length. split; [|lia].
+    constructor; [|exact I1]. split; [apply bytes_ok_firstn; exact Hb|]. rewrite firstn_length. lia.
 Qed.
 
-Lemma data_size_bounds n : 0 < n <= 8388608 -> 1 <= data_size n <= 3 /\ n < 2 ^ (8 * data_size n).
+Lemma null_rw : forall fuel b s acc t P p, N.of_nat (length b) <= N.of_nat fuel * 8388608 -> RA s -> bytes_ok b ->
+  Forall aop_ok t -> p < 2 ^ P ->
+  uval s = fst (abvs (map conv (null_chunks fuel b) ++ t)) * 2 ^ P + p ->
+  total s = snd (abvs (map conv (null_chunks fuel b) ++ t)) + P ->
+  exists s', null_read fuel s (N.of_nat (length b)) acc = (s', Some (acc ++ b)) /\ RA s' /\
+    uval s' = fst (abvs t) * 2 ^ P + p /\ total s' = snd (abvs t) + P.
+Proof.
+  induction fuel as [|f IH]; intros b s acc t P p Hs HR Hb Ht Hp HU HT.
+  - destruct b; [|cbn [length] in Hs; lia]. exists s. cbn [null_read null_chunks map app] in *. rewrite app_nil_r. auto.
+  - cbn [null_chunks] in HU, HT. cbn [null_read]. destruct b as [|x u] eqn:Eb.
+    { exists s. cbn [map app length N.of_nat N.eqb] in *. rewrite app_nil_r. auto. }
+    rewrite <- Eb in *.
+    set (k := N.to_nat (N.min (N.of_nat (length b)) 8388608)) in *.
+    assert (Hk : (1 <= k <= length b)%nat /\ N.of_nat k = N.min (N.of_nat (length b)) 8388608).
+    { unfold k. rewrite N2Nat.id. assert (0 < length b)%nat by (rewrite Eb; cbn [length]; lia). split; lia. }
+    destruct Hk as [Hk Hkn].
+    replace (N.of_nat (length b) =? 0) with false by (symmetry; apply N.eqb_neq; lia).
+    rewrite <- Hkn. cbn [map conv app] in HU, HT.
+    destruct (null_chunks_ok f (skipn k b) (bytes_ok_skipn _ _ Hb) ltac:(rewrite skipn_length; lia)) as [Hrest _].
+    assert (Hao : aop_ok (AArr (firstn k b) (8 * N.of_nat k))).
+    { split; [apply bytes_ok_firstn; exact Hb|]. rewrite firstn_length. lia. }
+    destruct (ra_abvs s (firstn k b) (8 * N.of_nat k) _ P p HR Hao (abvs_app_ok0 _ _ Hrest Ht) Hp HU HT) as (s1 & E1 & R1 & U1 & T1).
+    assert (Efk : bytes_of (topbits (firstn k b) (8 * N.of_nat k)) (8 * N.of_nat k) (8 * N.of_nat k) = firstn k b).
+    { pose proof (topbits_whole (firstn k b)) as X. pose proof (bytes_of_whole (firstn k b) (bytes_ok_firstn _ _ Hb)) as Y.
+      rewrite firstn_length, Nat.min_l in X, Y by lia. rewrite X. exact Y. }
+    rewrite Efk in E1. rewrite E1.
+    destruct (IH (skipn k b) s1 (acc ++ firstn k b) t P p ltac:(rewrite skipn_length; lia) R1 (bytes_ok_skipn _ _ Hb) Ht Hp U1 T1) as (s' & E' & R' & U' & T').
+    rewrite skipn_length in E'. replace (N.of_nat (length b) - N.of_nat k) with (N.of_nat (length b - k)) by lia.
+    rewrite E'. rewrite <- app_assoc, firstn_skipn. exists s'. auto.
+Qed.
+
+Lemma data_size_bounds n : 0 < n <= 1073741824 -> 1 <= data_size n <= 4 /\ n < 2 ^ (8 * data_size n).
 Proof.
   intros Hn. unfold data_size. destruct (n <? 256) eqn:E.
   - apply N.ltb_lt in E. split; [lia|]. change (2 ^ (8 * 1)) with 256. exact E.
   - apply N.ltb_ge in E.
-    assert (Hl : 8 <= N.log2 n <= 23).
-    { split; [change 8 with (N.log2 256); apply N.log2_le_mono; exact E|change 23 with (N.log2 8388608); apply N.log2_le_mono; lia]. }
-    assert (Hd : 1 <= N.log2 n / 8 <= 2).
+    assert (Hl : 8 <= N.log2 n <= 30).
+    { split; [change 8 with (N.log2 256); apply N.log2_le_mono; exact E|change 30 with (N.log2 1073741824); apply N.log2_le_mono; lia]. }
+    assert (Hd : 1 <= N.log2 n / 8 <= 3).
     { split; [apply N.div_le_lower_bound; [discriminate|lia]|apply N.lt_succ_r; apply N.div_lt_upper_bound; [discriminate|lia]]. }
     split; [lia|].
     destruct (N.log2_spec n ltac:(lia)) as [_ Hu]. eapply N.lt_le_trans; [exact Hu|]. apply N.pow_le_mono_r; [discriminate|].
     pose proof (N.div_mod (N.log2 n) 8 ltac:(discriminate)) as X. pose proof (N.mod_lt (N.log2 n) 8 ltac:(discriminate)). lia.
 Qed.
 
-Lemma mode_facts n : 0 < n <= 8388608 ->
+Lemma mode_facts n : 0 < n <= 1073741824 ->
   let mode := block_mode n in
   mode < 256 /\ (N.land mode 128 =? 0) && negb (N.land mode 16 =? 0) = false /\ 1 + N.land (N.shiftr mode 5) 3 = data_size n.
 Proof.
   intros Hn. destruct (data_size_bounds n Hn) as [Hd _]. unfold block_mode.
-  assert (Cases : data_size n = 1 \/ data_size n = 2 \/ data_size n = 3) by lia.
-  destruct (n <=? 15); destruct Cases as [E | [E | E]]; rewrite E; vm_compute; auto.
+  assert (Cases : data_size n = 1 \/ data_size n = 2 \/ data_size n = 3 \/ data_size n = 4) by lia.
+  destruct (n <=? 15); destruct Cases as [E | [E | [E | E]]]; rewrite E; vm_compute; auto.
 Qed.
 
 Definition inner_aops (b : list N) : list aop := map conv (inner_ops hash ck b).
+Definition nfuel (b : list N) : nat := S (N.to_nat (N.of_nat (length b) / 8388608)).
+
+Lemma nfuel_enough b : N.of_nat (length b) <= N.of_nat (nfuel b) * 8388608.
+Proof.
+  unfold nfuel. rewrite Nat2N.inj_succ, N2Nat.id. pose proof (N.div_mod (N.of_nat (length b)) 8388608 ltac:(discriminate)) as X.
+  pose proof (N.mod_lt (N.of_nat (length b)) 8388608 ltac:(discriminate)). lia.
+Qed.
 
 Lemma hash_ops_ok b : Forall aop_ok (map conv (hash_ops b)).
 Proof. unfold hash_ops. destruct (ck =? 1); [repeat constructor; cbn; lia|]. destruct (ck =? 2); repeat constructor; cbn; lia. Qed.
 
-Lemma inner_ops_eq b : b <> [] -> N.of_nat (length b) <= 8388608 ->
+Lemma inner_ops_eq b :
   inner_aops b = [AOp (WBits (block_mode (N.of_nat (length b))) 8); AOp (WBits (N.of_nat (length b)) (8 * data_size (N.of_nat (length b))))]
-                 ++ map conv (hash_ops b) ++ [AArr b (8 * N.of_nat (length b))].
-Proof.
-  intros Hne Hl. unfold inner_aops, inner_ops. rewrite (null_chunks_single _ b Hne Hl). fold (hash_ops b).
-  rewrite !map_app. reflexivity.
-Qed.
+                 ++ map conv (hash_ops b) ++ map conv (null_chunks (nfuel b) b).
+Proof. unfold inner_aops, inner_ops, nfuel. fold (hash_ops b). rewrite !map_app. reflexivity. Qed.
 
-Lemma inner_aops_ok b : b <> [] -> N.of_nat (length b) <= 8388608 -> bytes_ok b -> Forall aop_ok (inner_aops b).
+Lemma inner_aops_ok b : b <> [] -> N.of_nat (length b) <= 1073741824 -> bytes_ok b -> Forall aop_ok (inner_aops b).
 Proof.
-  intros Hne Hl Hb. rewrite (inner_ops_eq b Hne Hl).
-  assert (Hn : 0 < N.of_nat (length b) <= 8388608) by (split; [destruct b; [congruence|cbn [length]; lia]|exact Hl]).
+  intros Hne Hl Hb. rewrite (inner_ops_eq b).
+  assert (Hn : 0 < N.of_nat (length b) <= 1073741824) by (split; [destruct b; [congruence|cbn [length]; lia]|exact Hl]).
   destruct (data_size_bounds _ Hn) as [Hd _].
   apply Forall_app. split; [repeat constructor; cbn [aop_ok wop_ok]; lia|].
-  apply Forall_app. split; [apply hash_ops_ok|]. repeat constructor; [exact Hb|lia|lia].
+  apply Forall_app. split; [apply hash_ops_ok|]. apply (null_chunks_ok (nfuel b) b Hb (nfuel_enough b)).
 Qed.
 
 (* the image of a block's bit stream *)
-Lemma inner_image_spec b : b <> [] -> N.of_nat (length b) <= 8388608 -> bytes_ok b ->
+Lemma inner_image_spec b : b <> [] -> N.of_nat (length b) <= 1073741824 -> bytes_ok b ->
   exists img w pad, inner_image hash ck b = (img, w) /\ bytes_ok img /\ pad < 8 /\
     8 * N.of_nat (length img) = w + pad /\ be_val img = fst (abvs (inner_aops b)) * 2 ^ pad /\ w = snd (abvs (inner_aops b)).
 Proof.
@@ -200,29 +258,15 @@ Proof.
   split; [exact Hpad|]. split; [exact Hlen|]. split; [rewrite Himg, EV1; reflexivity|exact EV2].
 Qed.
 
-Lemma null_read_single f s b t P p : RA s -> b <> [] -> N.of_nat (length b) <= 8388608 -> bytes_ok b -> Forall aop_ok t -> p < 2 ^ P ->
-  uval s = fst (abvs (AArr b (8 * N.of_nat (length b)) :: t)) * 2 ^ P + p ->
-  total s = snd (abvs (AArr b (8 * N.of_nat (length b)) :: t)) + P ->
-  exists s', null_read (S f) s (N.of_nat (length b)) [] = (s', Some b) /\ RA s' /\ uval s' = fst (abvs t) * 2 ^ P + p /\ total s' = snd (abvs t) + P.
-Proof.
-  intros HR Hne Hl Hb Ht Hp HU HT.
-  assert (Hn : 0 < N.of_nat (length b)) by (destruct b; [congruence|cbn [length]; lia]).
-  destruct (ra_abvs s b (8 * N.of_nat (length b)) t P p HR ltac:(split; [exact Hb|lia]) Ht Hp HU HT) as (s' & E & HR' & U' & T').
-  rewrite topbits_whole, (bytes_of_whole b Hb) in E.
-  exists s'. split; [|auto]. cbn [null_read].
-  replace (N.of_nat (length b) =? 0) with false by (symmetry; apply N.eqb_neq; lia).
-  rewrite N.min_l by exact Hl. rewrite E. rewrite N.sub_diag. cbn [app]. destruct f; reflexivity.
-Qed.
-
-Theorem parse_inner_ok bsize b : b <> [] -> N.of_nat (length b) <= 8388608 -> bytes_ok b ->
+Theorem parse_inner_ok bsize b : b <> [] -> N.of_nat (length b) <= 1073741824 -> bytes_ok b ->
   N.of_nat (length b) <= bsize -> bsize <= MAX_BLOCK ->
   parse_inner hash ck bsize (fst (inner_image hash ck b)) = PData b.
 Proof.
   intros Hne Hl Hb Hbs Hmax.
   destruct (inner_image_spec b Hne Hl Hb) as (img & w & pad & Ei & Hbi & Hpad & Hlen & Himg & Hw). rewrite Ei. cbn [fst].
-  pose proof (inner_aops_ok b Hne Hl Hb) as Hok. rewrite (inner_ops_eq b Hne Hl) in Himg, Hw, Hok.
+  pose proof (inner_aops_ok b Hne Hl Hb) as Hok. rewrite (inner_ops_eq b) in Himg, Hw, Hok.
   set (n := N.of_nat (length b)) in *.
-  assert (Hn : 0 < n <= 8388608) by (split; [unfold n; destruct b; [congruence|cbn [length]; lia]|exact Hl]).
+  assert (Hn : 0 < n <= 1073741824) by (split; [unfold n; destruct b; [congruence|cbn [length]; lia]|exact Hl]).
   destruct (data_size_bounds n Hn) as [Hd Hnd]. destruct (mode_facts n Hn) as (Hm & Hskip & Hds). cbv zeta in Hm, Hskip, Hds.
   destruct (new_ibs_ra 16384 img [] ltac:(lia) ltac:(reflexivity) Hbi) as (R0 & U0 & T0). cbv zeta in R0, U0, T0.
   unfold parse_inner. set (s0 := new_ibs 16384 (mkSrc img [] None 0)) in *.
@@ -240,75 +284,139 @@ Proof.
   2:{ symmetry. apply orb_false_iff. split; [apply N.eqb_neq; lia|apply N.ltb_ge]. apply N.min_glb; [|unfold MAX_BLOCK; lia].
       etransitivity; [|apply N.le_max_l]. lia. }
   (* checksum, data *)
-  assert (Hlast : Forall aop_ok [AArr b (8 * n)]) by (apply Forall_app in Hok2; apply Hok2).
+  assert (Hlast : Forall aop_ok (map conv (null_chunks (nfuel b) b))) by (apply Forall_app in Hok2; apply Hok2).
+  assert (Efuel : S (N.to_nat (n / 8388608)) = nfuel b) by reflexivity. rewrite Efuel.
   unfold hash_ops in U2, T2.
   destruct (ck =? 1) eqn:C1.
   - apply N.eqb_eq in C1. cbn [map conv app] in U2, T2.
     destruct (rd_abvs s2 (hash b) 32 _ pad 0 R2 ltac:(lia) Hlast Hp0 U2 T2) as (s3 & E3 & R3 & U3 & T3).
     rewrite E3. rewrite (N.mod_small _ _ (Hh32 C1 b)).
-    destruct (null_read_single (N.to_nat (n / 8388608)) s3 b [] pad 0 R3 Hne Hl Hb ltac:(constructor) Hp0 U3 T3) as (s4 & E4 & _).
-    fold n in E4. rewrite E4. rewrite N.eqb_refl, orb_true_r. reflexivity.
+    destruct (null_rw (nfuel b) b s3 [] [] pad 0 (nfuel_enough b) R3 Hb ltac:(constructor) Hp0 ltac:(rewrite app_nil_r; exact U3) ltac:(rewrite app_nil_r; exact T3)) as (s4 & E4 & _).
+    fold n in E4. rewrite E4. cbn [app]. rewrite N.eqb_refl, orb_true_r. reflexivity.
   - destruct (ck =? 2) eqn:C2.
     + apply N.eqb_eq in C2. cbn [map conv app] in U2, T2.
       destruct (rd_abvs s2 (hash b) 64 _ pad 0 R2 ltac:(lia) Hlast Hp0 U2 T2) as (s3 & E3 & R3 & U3 & T3).
       rewrite E3. rewrite (N.mod_small _ _ (Hh64 C2 b)).
-      destruct (null_read_single (N.to_nat (n / 8388608)) s3 b [] pad 0 R3 Hne Hl Hb ltac:(constructor) Hp0 U3 T3) as (s4 & E4 & _).
-      fold n in E4. rewrite E4. rewrite N.eqb_refl, orb_true_r. reflexivity.
+      destruct (null_rw (nfuel b) b s3 [] [] pad 0 (nfuel_enough b) R3 Hb ltac:(constructor) Hp0 ltac:(rewrite app_nil_r; exact U3) ltac:(rewrite app_nil_r; exact T3)) as (s4 & E4 & _).
+      fold n in E4. rewrite E4. cbn [app]. rewrite N.eqb_refl, orb_true_r. reflexivity.
     + cbn [map conv app] in U2, T2.
-      destruct (null_read_single (N.to_nat (n / 8388608)) s2 b [] pad 0 R2 Hne Hl Hb ltac:(constructor) Hp0 U2 T2) as (s4 & E4 & _).
-      fold n in E4. rewrite E4.
+      destruct (null_rw (nfuel b) b s2 [] [] pad 0 (nfuel_enough b) R2 Hb ltac:(constructor) Hp0 ltac:(rewrite app_nil_r; exact U2) ltac:(rewrite app_nil_r; exact T2)) as (s4 & E4 & _).
+      fold n in E4. rewrite E4. cbn [app].
       replace (ck =? 0) with true by (symmetry; apply N.eqb_eq; apply N.eqb_neq in C1, C2; lia). reflexivity.
 Qed.
 
-
 (* ---------- the frame of a block in the shared bit stream ---------- *)
 Definition blk_ok (bsize : N) (b : list N) : Prop :=
-  b <> [] /\ N.of_nat (length b) <= 8388608 /\ bytes_ok b /\ N.of_nat (length b) <= bsize.
+  b <> [] /\ N.of_nat (length b) <= 1073741824 /\ bytes_ok b /\ N.of_nat (length b) <= bsize.
 
 Definition lw_of (w : N) : N := if 8 <=? w then N.log2 (w / 8) + 4 else 3.
+Definition ifuel (w : N) : nat := S (N.to_nat (w / 1073741824)).
 
 Definition frame_aops (b : list N) : list aop :=
   let img := fst (inner_image hash ck b) in let w := snd (inner_image hash ck b) in
-  [AOp (WBits (lw_of w - 3) 5); AOp (WBits w (lw_of w)); AArr img w].
+  [AOp (WBits (lw_of w - 3) 5); AOp (WBits w (lw_of w))] ++ map conv (arr_chunks (ifuel w) img w).
 
-Lemma inner_w_bounds b : b <> [] -> N.of_nat (length b) <= 8388608 -> bytes_ok b ->
-  16 <= snd (inner_image hash ck b) <= 67108960.
+Lemma ifuel_enough w : w <= N.of_nat (ifuel w) * 1073741824.
 Proof.
-  intros Hne Hl Hb. destruct (inner_image_spec b Hne Hl Hb) as (img & w & pad & Ei & _ & _ & _ & _ & Hw). rewrite Ei. cbn [snd].
-  rewrite (inner_ops_eq b Hne Hl) in Hw.
-  assert (Hn : 0 < N.of_nat (length b) <= 8388608) by (split; [destruct b; [congruence|cbn [length]; lia]|exact Hl]).
-  destruct (data_size_bounds _ Hn) as [Hd _].
-  unfold hash_ops in Hw. destruct (ck =? 1); [|destruct (ck =? 2)]; cbn [app map conv abvs snd aop_size op_size] in Hw; lia.
+  unfold ifuel. rewrite Nat2N.inj_succ, N2Nat.id. pose proof (N.div_mod w 1073741824 ltac:(discriminate)) as X.
+  pose proof (N.mod_lt w 1073741824 ltac:(discriminate)). lia.
 Qed.
 
-Lemma lw_facts w : 16 <= w <= 67108960 -> 5 <= lw_of w <= 27 /\ w < 2 ^ lw_of w.
+Lemma inner_w_bounds b : b <> [] -> N.of_nat (length b) <= 1073741824 -> bytes_ok b ->
+  16 <= snd (inner_image hash ck b) <= 8589934696.
+Proof.
+  intros Hne Hl Hb. destruct (inner_image_spec b Hne Hl Hb) as (img & w & pad & Ei & _ & _ & _ & _ & Hw). rewrite Ei. cbn [snd].
+  rewrite (inner_ops_eq b) in Hw.
+  assert (Hn : 0 < N.of_nat (length b) <= 1073741824) by (split; [destruct b; [congruence|cbn [length]; lia]|exact Hl]).
+  destruct (data_size_bounds _ Hn) as [Hd _].
+  destruct (null_chunks_ok (nfuel b) b Hb (nfuel_enough b)) as [_ Hnc].
+  assert (Hsz : forall l1 l2, snd (abvs (l1 ++ l2)) = snd (abvs l1) + snd (abvs l2)).
+  { induction l1 as [|o u IH]; intros l2; [cbn [app abvs snd]; lia|]. cbn [app abvs snd]. rewrite IH. lia. }
+  cbn [app] in Hw. cbn [abvs snd aop_size op_size] in Hw. rewrite Hsz, Hnc in Hw.
+  unfold hash_ops in Hw. destruct (ck =? 1); [|destruct (ck =? 2)]; cbn [map conv abvs snd aop_size op_size] in Hw; lia.
+Qed.
+
+Lemma lw_facts w : 16 <= w <= 8589934696 -> 5 <= lw_of w <= 34 /\ w < 2 ^ lw_of w.
 Proof.
   intros Hw. unfold lw_of. replace (8 <=? w) with true by (symmetry; apply N.leb_le; lia).
-  set (q := w / 8). assert (Hq : 2 <= q < 16777216).
+  set (q := w / 8). assert (Hq : 2 <= q < 2147483648).
   { unfold q. split; [apply N.div_le_lower_bound; [discriminate|lia]|apply N.div_lt_upper_bound; [discriminate|lia]]. }
-  assert (Hl : 1 <= N.log2 q <= 23).
-  { split; [change 1 with (N.log2 2); apply N.log2_le_mono; lia|apply N.lt_succ_r; apply N.log2_lt_pow2; [lia|change (2 ^ N.succ 23) with 16777216; lia]]. }
+  assert (Hl : 1 <= N.log2 q <= 30).
+  { split; [change 1 with (N.log2 2); apply N.log2_le_mono; lia|apply N.lt_succ_r; apply N.log2_lt_pow2; [lia|change (2 ^ N.succ 30) with 2147483648; lia]]. }
   split; [lia|]. destruct (N.log2_spec q ltac:(lia)) as [_ Hu].
   pose proof (N.div_mod w 8 ltac:(discriminate)) as X. pose proof (N.mod_lt w 8 ltac:(discriminate)) as Y. fold q in X.
   replace (N.log2 q + 4) with (N.succ (N.log2 q) + 3) by lia. rewrite N.pow_add_r. change (2 ^ 3) with 8. lia.
 Qed.
 
-Lemma frame_ops_eq b : b <> [] -> N.of_nat (length b) <= 8388608 -> bytes_ok b ->
-  map conv (frame_ops hash ck b) = frame_aops b.
+Lemma arr_chunks_0 f l : arr_chunks f l 0 = [].
+Proof. destruct f; reflexivity. Qed.
+Lemma read_img_0 f s acc : read_img f s 0 acc = (s, Some acc).
+Proof. destruct f; reflexivity. Qed.
+
+Definition K27 : nat := N.to_nat 134217728.
+Lemma k27 : 8 * N.of_nat K27 = 1073741824.
+Proof. unfold K27. rewrite N2Nat.id. reflexivity. Qed.
+Lemma k27' : N.to_nat ((1073741824 + 7) / 8) = K27.
+Proof. unfold K27. f_equal. Qed.
+Global Opaque K27.
+
+Lemma arr_chunks_ok : forall fuel img w, bytes_ok img -> w <= 8 * N.of_nat (length img) -> Forall aop_ok (map conv (arr_chunks fuel img w)).
 Proof.
-  intros Hne Hl Hb. pose proof (inner_w_bounds b Hne Hl Hb) as Hw. unfold frame_ops, frame_aops.
-  destruct (inner_image hash ck b) as [img w]. cbn [fst snd] in *. fold (lw_of w).
-  cbn [arr_chunks]. replace (w =? 0) with false by (symmetry; apply N.eqb_neq; lia).
-  rewrite N.min_l by lia. rewrite N.sub_diag.
-  assert (E : forall f l, arr_chunks f l 0 = []) by (intros [|f] l; reflexivity). rewrite E. reflexivity.
+  induction fuel as [|f IH]; intros img w Hb Hw; [constructor|]. cbn [arr_chunks]. destruct (w =? 0) eqn:E0; [constructor|].
+  apply N.eqb_neq in E0. cbn [map conv]. constructor; [split; [exact Hb|lia]|].
+  destruct (N.le_gt_cases w 1073741824) as [Hle|Hgt].
+  - rewrite N.min_l by exact Hle. rewrite N.sub_diag, arr_chunks_0. constructor.
+  - rewrite N.min_r by lia. rewrite k27'. apply IH; [apply bytes_ok_skipn; exact Hb|]. rewrite skipn_length.
+    pose proof k27. lia.
 Qed.
 
-Lemma frame_aops_ok b : b <> [] -> N.of_nat (length b) <= 8388608 -> bytes_ok b -> Forall aop_ok (frame_aops b).
+(* the image of a block, written and read in arrays of at most 2^30 bits *)
+Lemma img_rw : forall fuel img w pad s acc t P p, bytes_ok img -> 8 * N.of_nat (length img) = w + pad -> pad < 8 ->
+  be_val img mod 2 ^ pad = 0 -> w <= N.of_nat fuel * 1073741824 -> RA s -> Forall aop_ok t -> p < 2 ^ P ->
+  uval s = fst (abvs (map conv (arr_chunks fuel img w) ++ t)) * 2 ^ P + p ->
+  total s = snd (abvs (map conv (arr_chunks fuel img w) ++ t)) + P ->
+  exists s', read_img fuel s w acc = (s', Some (acc ++ img)) /\ RA s' /\ uval s' = fst (abvs t) * 2 ^ P + p /\ total s' = snd (abvs t) + P.
+Proof.
+  induction fuel as [|f IH]; intros img w pad s acc t P p Hb Hlen Hpad Hz Hs HR Ht Hp HU HT.
+  - assert (w = 0) by lia. subst w. assert (img = []) by (destruct img; [reflexivity|cbn [length] in Hlen; lia]). subst img.
+    exists s. cbn [read_img arr_chunks map app] in *. rewrite app_nil_r. auto.
+  - cbn [arr_chunks] in HU, HT. cbn [read_img]. destruct (w =? 0) eqn:E0.
+    { apply N.eqb_eq in E0. subst w. assert (img = []) by (destruct img; [reflexivity|cbn [length] in Hlen; lia]). subst img.
+      exists s. cbn [map app] in *. rewrite app_nil_r. auto. }
+    apply N.eqb_neq in E0. cbn [map conv app] in HU, HT.
+    destruct (N.le_gt_cases w 1073741824) as [Hle|Hgt].
+    + rewrite N.min_l in HU, HT |- * by exact Hle. rewrite N.sub_diag, arr_chunks_0 in HU, HT. cbn [map app] in HU, HT.
+      destruct (ra_abvs s img w t P p HR ltac:(split; [exact Hb|lia]) Ht Hp HU HT) as (s1 & E1 & R1 & U1 & T1).
+      assert (Eimg : bytes_of (topbits img w) w w = img).
+      { unfold topbits. replace (8 * N.of_nat (length img) - w) with pad by lia. exact (bytes_of_image img w pad Hb Hlen Hpad Hz). }
+      rewrite Eimg in E1. rewrite E1, N.sub_diag, read_img_0. exists s1. auto.
+    + rewrite N.min_r in HU, HT |- * by lia. rewrite k27' in HU, HT.
+      assert (HK : (K27 <= length img)%nat) by (pose proof k27; lia).
+      assert (Hb' : bytes_ok (skipn K27 img)) by (apply bytes_ok_skipn; exact Hb).
+      assert (Hlen' : 8 * N.of_nat (length (skipn K27 img)) = (w - 1073741824) + pad) by (rewrite skipn_length; pose proof k27; lia).
+      pose proof (arr_chunks_ok f (skipn K27 img) (w - 1073741824) Hb' ltac:(lia)) as Hrest.
+      destruct (ra_abvs s img 1073741824 _ P p HR ltac:(split; [exact Hb|lia]) (abvs_app_ok0 _ _ Hrest Ht) Hp HU HT) as (s1 & E1 & R1 & U1 & T1).
+      rewrite <- k27 in E1. rewrite (topbits_firstn img K27 Hb HK) in E1. rewrite k27 in E1. rewrite E1.
+      assert (Hz' : be_val (skipn K27 img) mod 2 ^ pad = 0).
+      { rewrite <- (firstn_skipn K27 img) in Hz. rewrite be_val_app in Hz.
+        assert (Hge : pad <= 8 * N.of_nat (length (skipn K27 img))) by lia.
+        rewrite (pow2_split _ _ Hge) in Hz. rewrite N.mul_assoc, N.add_comm, N.mod_add in Hz by (apply N.pow_nonzero; discriminate). exact Hz. }
+      destruct (IH (skipn K27 img) (w - 1073741824) pad s1 (acc ++ firstn K27 img) t P p Hb' Hlen' Hpad Hz' ltac:(lia) R1 Ht Hp U1 T1) as (s' & E' & R' & U' & T').
+      rewrite E'. rewrite <- app_assoc, firstn_skipn. exists s'. auto.
+Qed.
+
+Lemma frame_ops_eq b : map conv (frame_ops hash ck b) = frame_aops b.
+Proof.
+  unfold frame_ops, frame_aops, ifuel. destruct (inner_image hash ck b) as [img w]. cbn [fst snd]. fold (lw_of w).
+  rewrite map_app. reflexivity.
+Qed.
+
+Lemma frame_aops_ok b : b <> [] -> N.of_nat (length b) <= 1073741824 -> bytes_ok b -> Forall aop_ok (frame_aops b).
 Proof.
   intros Hne Hl Hb. pose proof (inner_w_bounds b Hne Hl Hb) as Hw. destruct (lw_facts _ Hw) as [Hlw _].
   destruct (inner_image_spec b Hne Hl Hb) as (img & w & pad & Ei & Hbi & Hpad & Hlen & _ & _).
   unfold frame_aops. rewrite Ei in *. cbn [fst snd] in *.
-  repeat constructor; cbn [aop_ok wop_ok]; try lia. exact Hbi.
+  apply Forall_app. split; [repeat constructor; cbn [aop_ok wop_ok]; lia|]. apply arr_chunks_ok; [exact Hbi|lia].
 Qed.
 
 (* reading one frame: the block comes back, the reader stands at the next frame *)
@@ -323,25 +431,21 @@ Proof.
   pose proof (inner_w_bounds b Hne Hl Hb) as Hw. destruct (lw_facts _ Hw) as [Hlw Hwlt].
   pose proof (frame_aops_ok b Hne Hl Hb) as Hfo. pose proof (parse_inner_ok bsize b Hne Hl Hb Hbs Hmax) as Hpi.
   destruct (inner_image_spec b Hne Hl Hb) as (img & w & pad & Ei & Hbi & Hpad & Hlen & Himg & _).
-  unfold frame_aops in HU, HT, Hfo. rewrite Ei in *. cbn [fst snd] in *. cbn [app] in HU, HT.
+  unfold frame_aops in HU, HT, Hfo. rewrite Ei in *. cbn [fst snd] in *. rewrite <- app_assoc in HU, HT. cbn [app] in HU, HT, Hfo.
   apply Forall_inv_tail in Hfo as Hf1. apply Forall_inv_tail in Hf1 as Hf2.
-  assert (Ht2 : Forall aop_ok (AArr img w :: t)) by (constructor; [apply Forall_inv in Hf2; exact Hf2|exact Ht]).
-  assert (Ht1 : Forall aop_ok (AOp (WBits w (lw_of w)) :: AArr img w :: t)) by (constructor; [apply Forall_inv in Hf1; exact Hf1|exact Ht2]).
+  assert (Ht2 : Forall aop_ok (map conv (arr_chunks (ifuel w) img w) ++ t)) by (apply abvs_app_ok0; assumption).
+  assert (Ht1 : Forall aop_ok (AOp (WBits w (lw_of w)) :: map conv (arr_chunks (ifuel w) img w) ++ t)) by (constructor; [apply Forall_inv in Hf1; exact Hf1|exact Ht2]).
   destruct (rd_abvs s (lw_of w - 3) 5 _ P p HR ltac:(lia) Ht1 Hp HU HT) as (s1 & E1 & R1 & U1 & T1).
   change (2 ^ 5) with 32 in E1. rewrite N.mod_small in E1 by lia.
   destruct (rd_abvs s1 w (lw_of w) _ P p R1 ltac:(lia) Ht2 Hp U1 T1) as (s2 & E2 & R2 & U2 & T2).
   rewrite (N.mod_small _ _ Hwlt) in E2.
-  destruct (ra_abvs s2 img w t P p R2 ltac:(apply Forall_inv in Hf2; exact Hf2) Ht Hp U2 T2) as (s3 & E3 & R3 & U3 & T3).
-  assert (Eimg : bytes_of (topbits img w) w w = img).
-  { unfold topbits. replace (8 * N.of_nat (length img) - w) with pad by lia.
-    apply (bytes_of_image img w pad Hbi Hlen Hpad). rewrite Himg. apply N.mod_mul. apply N.pow_nonzero. discriminate. }
-  rewrite Eimg in E3.
+  assert (Hz : be_val img mod 2 ^ pad = 0) by (rewrite Himg; apply N.mod_mul; apply N.pow_nonzero; discriminate).
+  destruct (img_rw (ifuel w) img w pad s2 [] t P p Hbi Hlen Hpad Hz (ifuel_enough w) R2 Ht Hp U2 T2) as (s3 & E3 & R3 & U3 & T3).
+  cbn [app] in E3.
   exists s1, s2, s3, (lw_of w - 3), w, img.
   split; [exact E1|]. split; [replace (lw_of w - 3 + 3) with (lw_of w) by lia; exact E2|].
   split; [apply N.eqb_neq; lia|]. split; [apply N.ltb_ge; lia|].
-  split; [|auto].
-  cbn [read_img]. replace (w =? 0) with false by (symmetry; apply N.eqb_neq; lia). rewrite N.min_l by lia. rewrite E3.
-  rewrite N.sub_diag. cbn [app]. destruct (N.to_nat (w / 1073741824)); reflexivity.
+  split; [exact E3|]. auto.
 Qed.
 
 Definition end_aops : list aop := [AOp (WBits 0 5); AOp (WBits 0 3)].
@@ -401,7 +505,7 @@ Lemma stream_aops blocks : Forall (blk_ok (h_bsize c)) blocks ->
 Proof.
   intros Hok. unfold stream_ops. rewrite !map_app, map_map. f_equal. f_equal.
   induction Hok as [|b t (Hne & Hl & Hb & _) _ IH]; [reflexivity|]. cbn [flat_map]. rewrite map_app, IH. f_equal.
-  apply (frame_ops_eq hash (h_ck c) (ck_ok _ _ _ Hc) H32 H64); assumption.
+  apply (frame_ops_eq hash (h_ck c)).
 Qed.
 
 (* the header of a written stream is parsed back, and the reader then stands at the first frame *)
